@@ -79,7 +79,7 @@ type MdnsManager struct {
 
 	mux,
 	muxAnnounced,
-	muxConfig sync.Mutex // guards autoaccept
+	muxConfig sync.Mutex // guards autoaccept and mdnsProvider
 }
 
 func shortenString(s string, maxLen int) string {
@@ -172,24 +172,27 @@ func (m *MdnsManager) Start(cb api.MdnsReportInterface) error {
 		// First try avahi, if not available use zerconf
 		provider := NewAvahiProvider(ifaceIndexes)
 		if provider.Start(false, m.processMdnsEntry) {
-			m.mdnsProvider = provider
+			m.setProvider(provider)
 		} else {
 			provider.Shutdown()
 
 			// Avahi is not availble, use Zeroconf
-			m.mdnsProvider = NewZeroconfProvider(ifaces)
-			if !m.mdnsProvider.Start(false, m.processMdnsEntry) {
+			zcProvider := NewZeroconfProvider(ifaces)
+			m.setProvider(zcProvider)
+			if !zcProvider.Start(false, m.processMdnsEntry) {
 				return errors.New("No mDNS provider available")
 			}
 		}
 	case MdnsProviderSelectionAvahiOnly:
 		// Only use Avahi
-		m.mdnsProvider = NewAvahiProvider(ifaceIndexes)
-		_ = m.mdnsProvider.Start(true, m.processMdnsEntry)
+		provider := NewAvahiProvider(ifaceIndexes)
+		m.setProvider(provider)
+		_ = provider.Start(true, m.processMdnsEntry)
 	case MdnsProviderSelectionGoZeroConfOnly:
 		// Only use Zeroconf
-		m.mdnsProvider = NewZeroconfProvider(ifaces)
-		_ = m.mdnsProvider.Start(true, m.processMdnsEntry)
+		provider := NewZeroconfProvider(ifaces)
+		m.setProvider(provider)
+		_ = provider.Start(true, m.processMdnsEntry)
 	}
 
 	// on startup always start mDNS announcement
@@ -217,20 +220,37 @@ func (m *MdnsManager) Shutdown() {
 	m.shutdownOnce.Do(func() {
 		m.UnannounceMdnsEntry()
 
-		if m.mdnsProvider == nil {
+		provider := m.provider()
+		if provider == nil {
 			return
 		}
 
-		m.mdnsProvider.Shutdown()
-		m.mdnsProvider = nil
+		provider.Shutdown()
+		m.setProvider(nil)
 	})
+}
+
+// the provider is set by Start and cleared by Shutdown while other goroutines announce
+func (m *MdnsManager) provider() api.MdnsProviderInterface {
+	m.muxConfig.Lock()
+	defer m.muxConfig.Unlock()
+
+	return m.mdnsProvider
+}
+
+func (m *MdnsManager) setProvider(provider api.MdnsProviderInterface) {
+	m.muxConfig.Lock()
+	defer m.muxConfig.Unlock()
+
+	m.mdnsProvider = provider
 }
 
 // Announces the service to the network via mDNS
 // A CEM service should always invoke this on startup
 // Any other service should only invoke this whenever it is not connected to a CEM service
 func (m *MdnsManager) AnnounceMdnsEntry() error {
-	if m.mdnsProvider == nil {
+	provider := m.provider()
+	if provider == nil {
 		return nil
 	}
 
@@ -261,7 +281,7 @@ func (m *MdnsManager) AnnounceMdnsEntry() error {
 
 	serviceName := m.serviceName
 
-	if err := m.mdnsProvider.Announce(serviceName, m.port, txt); err != nil {
+	if err := provider.Announce(serviceName, m.port, txt); err != nil {
 		logging.Log().Debug("mdns: failure announcing service", err)
 		return err
 	}
@@ -276,11 +296,12 @@ func (m *MdnsManager) AnnounceMdnsEntry() error {
 
 // Stop the mDNS announcement on the network
 func (m *MdnsManager) UnannounceMdnsEntry() {
-	if !m.isServiceAnnounced() || m.mdnsProvider == nil {
+	provider := m.provider()
+	if !m.isServiceAnnounced() || provider == nil {
 		return
 	}
 
-	m.mdnsProvider.Unannounce()
+	provider.Unannounce()
 	logging.Log().Debug("mdns: stop announcement")
 
 	m.setIsServiceAnnounce(false)
